@@ -4,29 +4,37 @@ package main
 // directory; trustpolicy.LoadOCIDocument / LoadBlobDocument and the configuration-based verifier constructors.
 
 import (
+	"context"
 	"encoding/json"
+	"encoding/pem"
 	"os"
 	"path/filepath"
 	"strings"
 
+	"github.com/notaryproject/notation-core-go/signature"
+	"github.com/notaryproject/notation-go"
 	"github.com/notaryproject/notation-go/dir"
 	"github.com/notaryproject/notation-go/verifier"
 	"github.com/notaryproject/notation-go/verifier/trustpolicy"
+	"github.com/opencontainers/go-digest"
+	ocispec "github.com/opencontainers/image-spec/specs-go/v1"
 )
 
 func init() { execHeavy["policyfiles"] = true; drivers["policyfiles"] = runPolicyFiles }
 
 type PFIn struct {
-	Cfg map[string]string `json:"cfg"`
-	Op  string            `json:"op"`
+	Cfg    map[string]string `json:"cfg"`
+	Op     string            `json:"op"`
+	RootIn string            `json:"rootIn"`
 }
 
 type PFObs struct {
 	Panic bool   `json:"panic"`
 	Res   string `json:"res"`   // "doc" | "verifier" | "refused"
 	Class string `json:"class"` // of a refusal, from the error text (informative only: wording is not judged)
-	From  string `json:"from"`
-	Note  string `json:"-"`
+	From     string `json:"from"`
+	Verified string `json:"verified"` // "n/a" | "pass" | "fail": a good signature under the verifier that was built
+	Note     string `json:"-"`
 }
 
 var pfFile = map[string]string{"oci": "trustpolicy.oci.json", "legacy": "trustpolicy.json", "blob": "trustpolicy.blob.json"}
@@ -38,7 +46,7 @@ func pfDoc(which string, valid bool) []byte {
 		level = "no-such-level"
 	}
 	st := map[string]interface{}{"name": "from-" + which, "signatureVerification": map[string]string{"level": level},
-		"trustStores": []string{"ca:s1"}, "trustedIdentities": []string{"*"}}
+		"trustStores": []string{"ca:from-" + which}, "trustedIdentities": []string{"*"}}
 	if which != "blob" {
 		st["registryScopes"] = []string{"*"}
 	}
@@ -98,7 +106,18 @@ func runPolicyFiles() int {
 				panic("unknown file kind " + kind)
 			}
 		}
-		obs := PFObs{From: "-"}
+		obs := PFObs{From: "-", Verified: "n/a"}
+		// the trust store directory of the same configuration root: one store per policy file, exactly one holds the signer's root
+		chain := stdChainByKey("good3")
+		for which := range pfFile {
+			cert := histUnrelated().Root()
+			if which == in.RootIn {
+				cert = chain.Root()
+			}
+			d := filepath.Join(cfg, "truststore", "x509", "ca", "from-"+which)
+			must(os.MkdirAll(d, 0755))
+			must(os.WriteFile(filepath.Join(d, "cert.pem"), pem.EncodeToMemory(&pem.Block{Type: "CERTIFICATE", Bytes: cert.Raw}), 0644))
+		}
 		nameOf := func(n string) string { return strings.TrimPrefix(n, "from-") }
 		panicked, msg := guarded(func() {
 			switch in.Op {
@@ -123,15 +142,49 @@ func runPolicyFiles() int {
 			case "NewOCI", "NewBlob":
 				var err error
 				which := "oci"
+				var ov notation.Verifier
+				var bv notation.BlobVerifier
 				if in.Op == "NewOCI" {
-					_, err = verifier.NewOCIVerifierFromConfig()
+					// (the constructor of old, NewFromConfig, for half of the cases)
+					if c.ID%2 == 0 {
+						if v, e := verifier.NewOCIVerifierFromConfig(); e == nil {
+							ov = v
+						} else {
+							err = e
+						}
+					} else {
+						ov, err = verifier.NewFromConfig()
+					}
 				} else {
-					_, err = verifier.NewBlobVerifierFromConfig()
+					if v, e := verifier.NewBlobVerifierFromConfig(); e == nil {
+						bv = v
+					} else {
+						err = e
+					}
 					which = "blob"
 				}
 				switch {
 				case err == nil:
 					obs.Res = "verifier"
+					// use it: a good signature by the chain whose root sits in exactly one of the stores
+					desc := ocispec.Descriptor{MediaType: mtA, Digest: digestOf(digest.SHA256, []byte("manifest A")), Size: 321}
+					payload, _ := json.Marshal(map[string]interface{}{"targetArtifact": desc})
+					env := cachedEnv("pf|jws", func() []byte {
+						return SignEnvelope(EnvSpec{Format: "jws", Chain: chain, Scheme: signature.SigningSchemeX509, SigningTime: at(-2), Payload: payload})
+					})
+					var verr error
+					if ov != nil {
+						_, verr = ov.Verify(context.Background(), desc, env, notation.VerifierVerifyOptions{SignatureMediaType: mtJWS,
+							ArtifactReference: "registry.verif.example/pf/repo@" + string(desc.Digest)})
+					} else {
+						_, verr = bv.VerifyBlob(context.Background(), func(digest.Algorithm) (ocispec.Descriptor, error) { return desc, nil }, env,
+							notation.BlobVerifierVerifyOptions{SignatureMediaType: mtJWS, TrustPolicyName: "from-blob"})
+					}
+					obs.Verified = "pass"
+					if verr != nil {
+						obs.Verified = "fail"
+						obs.Note = verr.Error()
+					}
 					// which file it was built from: the model's answer is checked through the loader (same directory, same call)
 					if which == "oci" {
 						if d, e := trustpolicy.LoadOCIDocument(); e == nil && len(d.TrustPolicies) == 1 {
